@@ -4,6 +4,7 @@
 #![allow(dead_code)]
 use crate::bridge::{self, Pid};
 use crate::conn::{ap_short, ConnBox, Ev, RoleK, Tk};
+use crate as super_crate;
 use crate::explore::{StepOut, World};
 use crate::refcodec::{self as rc, AckKind, PVal, Prop, Ver, AP};
 use mqtt_protocol_core::mqtt::connection::core::verif_hooks::VerifState;
@@ -159,6 +160,8 @@ pub struct EpCfg {
     pub max_partials: u8,
     /// one-step raw stimuli fired from every reachable state (C05 / C17); (label, bytes)
     pub stimuli: Arc<Vec<(String, Vec<u8>)>>,
+    /// undetermined-version objects: encode the peer's CONNECT menu with this one version
+    pub force_connect_ver: Option<Ver>,
 }
 
 impl EpCfg {
@@ -182,6 +185,7 @@ impl EpCfg {
             max_send_fails: 1,
             max_partials: 1,
             stimuli: Arc::new(vec![]),
+            force_connect_ver: None,
         }
     }
     pub fn on(&self, g: &str) -> bool {
@@ -573,8 +577,10 @@ impl<P: Pid> Ep<P> {
         let (label, bytes) = self.cfg.stimuli[i].clone();
         let pre_m = self.m.clone();
         let ver_for_decode = self.m.ver.unwrap_or(Ver::V4);
-        let stored = self.conn.snap().store.len();
+        let pre_snap = self.conn.snap();
+        let stored = pre_snap.store.len();
         let (lists, _n) = self.conn.recv_all(&bytes);
+        let post_recv_snap = self.conn.snap();
         self.m.link_up = true;
         let mut rules = Rules { out, cfg: self.cfg.clone(), act: Act::PRaw(i as u16) };
         // which complete frames does the stimulus contain (reference framing)?
@@ -617,6 +623,47 @@ impl<P: Pid> Ep<P> {
                 rules.label("c05.stim-bad-length");
             }
             crate::rules::close_order_pub(&pre_m, &c, &mut rules);
+            // C17: receive gating by role / reserved types / nothing but CONNECT before the version is known
+            if let Some(Some((f, _))) = frames.get(k) {
+                if k == 0 {
+                    let ty = f[0] >> 4;
+                    let v4 = pre_m.ver == Some(Ver::V4);
+                    let forbidden_role = match self.cfg.role {
+                        RoleK::Client => matches!(ty, 1 | 8 | 10 | 12) || (v4 && ty == 14),
+                        RoleK::Server => matches!(ty, 2 | 9 | 11 | 13),
+                        RoleK::Any => false,
+                    };
+                    let reserved = ty == 0 || (v4 && ty == 15);
+                    let undetermined = pre_m.ver.is_none();
+                    if forbidden_role || reserved || (undetermined && ty != 1) {
+                        rules.label(if undetermined { "c17.undetermined-non-connect" } else if reserved { "c17.reserved-type" } else { "c17.forbidden-direction" });
+                        let delivered = !c.recvs().is_empty();
+                        let err_ok = c.errors().iter().any(|e| matches!(e, MqttError::ProtocolError | MqttError::MalformedPacket));
+                        let other_send = c.sends().iter().any(|a| !matches!(a, AP::Disconnect { .. }));
+                        if delivered || !err_ok || other_send {
+                            rules.viol_sig("c17.gating", format!("c17.gating|{:?}|type{}|{}", self.cfg.role, ty, super_crate::props::epc::ver_name(pre_m.ver)), &pre_m, format!("packet type {ty} can never be sent by the remote side of a {:?} ({}): expected a protocol error, no delivery, nothing transmitted but a DISCONNECT; got {}", self.cfg.role, super_crate::props::epc::ver_name(pre_m.ver), c.describe()));
+                        }
+                        if snapshot_session_scope(&pre_snap) != snapshot_session_scope(&post_recv_snap) || (undetermined && post_recv_snap.protocol_version != 0) {
+                            rules.viol_sig("c17.gating-state", format!("c17.gating-state|{:?}|type{}|{}", self.cfg.role, ty, super_crate::props::epc::ver_name(pre_m.ver)), &pre_m, format!("a packet of forbidden type {ty} changed session state or the protocol version: {}", c.describe()));
+                        }
+                    } else if undetermined && ty == 1 {
+                        // CONNECT on an undetermined server: levels 4 / 5 are adopted, others refused
+                        let level = f.get(8).copied().unwrap_or(0);
+                        let adopted = post_recv_snap.protocol_version;
+                        if level == 4 || level == 5 {
+                            rules.label("c17.undetermined-adopts");
+                            if !c.recvs().is_empty() && adopted != level {
+                                rules.viol_sig("c17.adoption", format!("c17.adoption|level{level}"), &pre_m, format!("CONNECT level {level} delivered but get_protocol_version() is {adopted}"));
+                            }
+                        } else {
+                            rules.label("c17.undetermined-rejects-level");
+                            if !c.recvs().is_empty() || adopted != 0 || !c.errors().contains(&MqttError::UnsupportedProtocolVersion) {
+                                rules.viol_sig("c17.adoption", format!("c17.adoption|level{level}"), &pre_m, format!("CONNECT with protocol level {level} must be rejected with UnsupportedProtocolVersion and leave the version undetermined: {} (version now {adopted})", c.describe()));
+                            }
+                        }
+                    }
+                }
+            }
         }
         if lists.iter().all(|l| l.is_empty()) {
             rules.label("c05.stim-incomplete");
@@ -667,7 +714,7 @@ impl<P: Pid> Ep<P> {
         let ver = self.ver();
         Some(match a {
             Act::PConnect(i) => {
-                let v = self.m.ver.or(self.cfg.ver).unwrap_or(if *i as usize >= self.cfg.connects.len() { Ver::V5 } else { Ver::V4 });
+                let v = self.m.ver.or(self.cfg.ver).or(self.cfg.force_connect_ver).unwrap_or(if *i as usize >= self.cfg.connects.len() { Ver::V5 } else { Ver::V4 });
                 self.cfg.connects[(*i as usize) % self.cfg.connects.len()].ap(v)
             }
             Act::PConnack(i) => self.cfg.connacks[*i as usize].ap(ver),
@@ -811,7 +858,7 @@ impl<P: Pid> World for Ep<P> {
             return v;
         }
         if self.can_be_server() && (m.st == St::Disc || (al.second_connect && !m.as_client && m.link_up)) {
-            let n = c.connects.len() * if c.ver.is_none() && m.ver.is_none() { 2 } else { 1 };
+            let n = c.connects.len() * if c.ver.is_none() && m.ver.is_none() && c.force_connect_ver.is_none() { 2 } else { 1 };
             for i in 0..n {
                 v.push(Act::PConnect(i as u8));
             }
